@@ -543,6 +543,16 @@ Proof.
   - intros [Hc H] [|j] Hj; [exact Hc|]. cbn. apply H. lia.
 Qed.
 
+Lemma run_due_cons c cs tl fs rest : tsorted tl -> run_due (c :: cs) tl = (fs, rest) ->
+  exists fs', fs = filter (fun e : event => fst e <=? c) tl :: fs' /\
+              run_due cs (filter (fun e : event => c <? fst e) tl) = (fs', rest).
+Proof.
+  intros Hs H. cbn [run_due] in H. rewrite (due_spec c tl Hs) in H. cbv beta iota in H.
+  match type of H with context [run_due cs ?X] =>
+    destruct (run_due cs X) as [fs' tl''] eqn:E2 end.
+  injection H as <- <-. exists fs'. split; [reflexivity|exact E2].
+Qed.
+
 Theorem exactly_once_on_time cs tl fs rest : tsorted tl -> StronglySorted Z.lt cs ->
   run_due cs tl = (fs, rest) ->
   forall e k, In e tl -> (k < length cs)%nat ->
@@ -550,14 +560,12 @@ Theorem exactly_once_on_time cs tl fs rest : tsorted tl -> StronglySorted Z.lt c
 Proof.
   intros Hs _. revert tl fs rest Hs.
   induction cs as [|c cs IH]; intros tl fs rest Hs H e k Hin Hk; [cbn in Hk; lia|].
-  cbn [run_due] in H. rewrite (due_spec c tl Hs) in H. cbv beta iota in H.
-  destruct (run_due cs (filter _ tl)) as [fs' tl''] eqn:E2.
-  injection H as <- <-.
+  apply (run_due_cons _ _ _ _ _ Hs) in H as (fs' & -> & E2).
   destruct k as [|k].
   - cbn [nth]. rewrite filter_In. split.
     + intros [_ Hle]. apply Z.leb_le in Hle. split; [exact Hle|]. intros j Hj. lia.
     + intros [Hle _]. split; [exact Hin|]. apply Z.leb_le. exact Hle.
-  - cbn [nth]. cbn in Hk. rewrite forall_lt_S.
+  - rewrite forall_lt_S. cbn [nth]. cbn in Hk.
     destruct (c <? fst e) eqn:Ec.
     + assert (HinR : In e (filter (fun e0 : event => c <? fst e0) tl))
         by (apply filter_In; split; assumption).
@@ -580,9 +588,7 @@ Proof.
   induction cs as [|c cs IH]; intros tl fs rest Hs H e Hin.
   - cbn in H. injection H as <- <-. split; [|intros _; exact Hin].
     intros _ j Hj. cbn in Hj. lia.
-  - cbn [run_due] in H. rewrite (due_spec c tl Hs) in H. cbv beta iota in H.
-    destruct (run_due cs (filter _ tl)) as [fs' tl''] eqn:E2.
-    injection H as <- <-. cbn [length]. rewrite forall_lt_S.
+  - apply (run_due_cons _ _ _ _ _ Hs) in H as (fs' & -> & E2). cbn [length]. rewrite forall_lt_S.
     destruct (c <? fst e) eqn:Ec.
     + assert (HinR : In e (filter (fun e0 : event => c <? fst e0) tl))
         by (apply filter_In; split; assumption).
